@@ -144,6 +144,93 @@ def u_GoRT(I):
     return {'inputs': {}}
 
 
+def u_init(I):
+    """ThermochemRawData.__init__ for a table of any length n >= 1 with distinct temperatures, in any order."""
+    from pyvc.engine import SymSeq
+    ctx = I.ctx
+    n = ctx.fresh('n', 'int')
+    TsF = ctx.fresh_fn('Ts', z3.IntSort(), z3.RealSort())
+    CpF = ctx.fresh_fn('Cps', z3.IntSort(), z3.RealSort())
+    Ts = SymSeq(n, lambda k: TsF(k), 'Ts')
+    Cps = SymSeq(n, lambda k: CpF(k), 'ND_Cps')
+    i, j = z3.Int('i!q'), z3.Int('j!q')
+    ctx.assume(n >= 1)
+    ctx.assume_forall([i, j], z3.Implies(z3.And(0 <= i, i < j, j < n), TsF(i) != TsF(j)), 'distinct temperatures')
+    H, S_, T_ref = ctx.fresh('H_ref', 'real'), ctx.fresh('S_ref', 'real'), ctx.fresh('T_ref', 'real')
+    has_range = ctx.choose([True, True]) == 0
+    lo, hi = ctx.fresh('lo', 'real'), ctx.fresh('hi', 'real')
+    rng = (lo, hi) if has_range else None
+    cls = source.module(RAW).classes['ThermochemRawData']
+    o = Obj(cls, {}, origin='fresh')
+    out = run_target(I, RAW, 'ThermochemRawData.__init__', [H, S_, Ts, Cps, T_ref, rng], self_obj=o)
+    # spec: extremes of the table, whatever the supply order
+    kmin, kmax = ctx.fresh('kmin', 'int'), ctx.fresh('kmax', 'int')
+    ctx.assume(z3.And(0 <= kmin, kmin < n, 0 <= kmax, kmax < n))
+    ctx.assume_forall([i], z3.Implies(z3.And(0 <= i, i < n), z3.And(TsF(kmin) <= TsF(i), TsF(i) <= TsF(kmax))), 'kmin/kmax are the extremes')
+    tmin, tmax = TsF(kmin), TsF(kmax)
+    elo, ehi = (lo, hi) if has_range else (tmin, tmax)
+    bad = z3.Or(tmin < elo, tmax > ehi, T_ref < elo, T_ref > ehi)
+
+    def posts(_):
+        f = o.fields
+        ps = []
+        need = ['Ts', 'ND_Cps', 'min_T', 'max_T', 'min_ND_Cp', 'max_ND_Cp', 'ND_H_ref', 'ND_S_ref', 'T_ref', 'range', 'spline']
+        missing = [k for k in need if k not in f]
+        ps.append(('all fields defined', z3.BoolVal(not missing)))
+        if missing:
+            return ps
+        ps.append(('min_T is the smallest tabulated temperature and min_ND_Cp its Cp (any supply order)',
+                   z3.And(f['min_T'] == tmin, f['min_ND_Cp'] == CpF(kmin))))
+        ps.append(('max_T is the largest tabulated temperature and max_ND_Cp its Cp (any supply order)',
+                   z3.And(f['max_T'] == tmax, f['max_ND_Cp'] == CpF(kmax))))
+        r = f['range']
+        ps.append(('range is the declared one, else the table span', z3.And(r[0] == elo, r[1] == ehi)
+                   if isinstance(r, tuple) and len(r) == 2 else z3.BoolVal(False)))
+        ps.append(('reference values stored', z3.And(f['ND_H_ref'] == H, f['ND_S_ref'] == S_, f['T_ref'] == T_ref)))
+        sT, sC = f['Ts'], f['ND_Cps']
+        if isinstance(sT, SymSeq) and isinstance(sC, SymSeq) and hasattr(sT, 'length'):
+            ps.append(('stored table is sorted ascending', z3.Implies(z3.And(0 <= k, k < k2, k2 < n), sT.at(k) < sT.at(k2))))
+            ps.append(('stored table has the n points', z3.And(sT.length == n, sC.length == n)))
+        else:
+            ps.append(('stored table is a sequence', z3.BoolVal(False)))
+        sp = f['spline']
+        if isinstance(sp, Obj) and sp.cls.name == 'ConstantSpline':
+            ps.append(('constant spline only for a single point, with its Cp', z3.And(n == 1, sp.fields.get('ND_Cp') == CpF(kmin))))
+        elif isinstance(sp, Obj) and sp.cls is common.SplineCls:
+            x, y, kk = sp.fields['x'], sp.fields['y'], sp.fields['k']
+            ps.append(('spline built on the sorted table', z3.BoolVal(x is sT and y is sC)))
+            ps.append(('spline order is min(3, n-1) and n >= 2', z3.And(n >= 2, z3_of(kk) == z3.If(n > 3, 3, n - 1))))
+            ps.append(('spline abscissae strictly increasing (precondition of the scipy constructor)',
+                       z3.Implies(z3.And(0 <= k, k < k2, k2 < n), x.at(k) < x.at(k2))))
+        else:
+            ps.append(('spline object built', z3.BoolVal(False)))
+        return ps
+    k = ctx.fresh('k', 'int')
+    k2 = ctx.fresh('k2', 'int')
+    if ctx.ghost.get('perms'):
+        P, Q = ctx.ghost['perms'][0]
+        ctx.instantiate([0, n - 1, kmin, kmax, k, k2, P(z3.IntVal(0)), P(n - 1), P(k), P(k2), Q(kmin), Q(kmax)])
+    else:
+        ctx.instantiate([0, n - 1, kmin, kmax])
+    check_outcome(I, out, raises={'ValueError': bad}, returns=posts, site='ThermochemRawData.__init__')
+    return {'inputs': {'n': n}}
+
+
+def replay_init(model, state, ob):
+    """Bounded counter-model search is not needed: any unsorted 3-point table exhibits an order dependence."""
+    from pgradd.ThermoChem.raw_data import ThermochemRawData
+    a = ThermochemRawData(1.0, 2.0, [300., 400., 500.], [3., 4., 5.], 298.15, (200., 600.))
+    b = ThermochemRawData(1.0, 2.0, [500., 300., 400.], [5., 3., 4.], 298.15, (200., 600.))
+    obs = {'sorted': [a.min_T, a.max_T, a.get_HoRT(550.)], 'unsorted': [b.min_T, b.max_T, b.get_HoRT(550.)]}
+    failed = obs['sorted'] != obs['unsorted']
+    return {'failed': failed, 'input': {'Ts': [500., 300., 400.], 'Cps': [5., 3., 4.]}, 'observed': obs['unsorted'],
+            'expected': obs['sorted'],
+            'script': "from pgradd.ThermoChem.raw_data import ThermochemRawData\n"
+                      "a = ThermochemRawData(1.0, 2.0, [300., 400., 500.], [3., 4., 5.], 298.15, (200., 600.))\n"
+                      "b = ThermochemRawData(1.0, 2.0, [500., 300., 400.], [5., 3., 4.], 298.15, (200., 600.))\n"
+                      "print(a.min_T, a.max_T, a.get_HoRT(550.)); print(b.min_T, b.max_T, b.get_HoRT(550.))\n"}
+
+
 # ---- lemmas over the contracts (corollaries named in the property) ------------------------------
 def u_lemmas(I):
     """From the posts of get_HoRT/get_SoR: values at T_ref, and additivity of the changes between any two
@@ -169,11 +256,14 @@ def u_lemmas(I):
     return {'inputs': {}}
 
 
+from .incomplete import INC_UNITS
+
 UNITS = [
     Unit('ThermochemRawData.get_HoRT', (RAW, 'ThermochemRawData.get_HoRT'), u_get_HoRT, replay_raw('get_HoRT', 'H')),
     Unit('ThermochemRawData.get_SoR', (RAW, 'ThermochemRawData.get_SoR'), u_get_SoR, replay_raw('get_SoR', 'S')),
     Unit('ThermochemRawData.get_CpoR', (RAW, 'ThermochemRawData.get_CpoR'), u_get_CpoR, replay_raw('get_CpoR', None)),
+    Unit('ThermochemRawData.__init__', (RAW, 'ThermochemRawData.__init__'), u_init, replay_init),
     Unit('ConstantSpline', (RAW, 'ConstantSpline.integral'), u_const_spline),
     Unit('ThermochemBase.get_GoRT', (BASE, 'ThermochemBase.get_GoRT'), u_GoRT),
     Unit('lemma:consistency', None, u_lemmas, kind='lemma'),
-]
+] + INC_UNITS
